@@ -31,32 +31,48 @@ RULE = ("histories of queries (isomorphic / get_mappings / _pre_check / boolean 
         "neighbours and planted sub-patterns, exhaustive short query sequences; a case is non-trivial when its answers contain both "
         "a positive and a negative verdict; distinct = distinct case contents")
 EXHAUSTIVE = {"quick": True, "thorough": True}
-EXPLANATION = ("Exhaustive sub-space: quick = all unordered pairs of iso classes <= 3 nodes over 2 elements x {absent, order 1, order 2} "
-               "(plus every class against a relabelled copy of itself) and all ordered pairs <= 2 nodes with hcount {0,1}; thorough = "
-               "the same up to 4 nodes (sampled above 3 for the hcount alphabet); every filter flag, induced and monomorphism mode, "
-               "three attribute selections, queries issued in PRNG order on shared graph objects.  The rest is sampled.")
+EXPLANATION = ("Exhaustive sub-space (both tiers): all unordered pairs of iso classes <= 3 nodes over 2 elements x {absent, order 1, "
+               "order 2} (plus every class against a relabelled copy of itself), all ordered pairs <= 2 nodes with hcount {0,1}, and all "
+               "query sequences of length <= 4 (isomorphic) / 2 (isomorphic + get_mappings) over 3 graph objects x 2 engines; every "
+               "filter flag, induced and monomorphism mode, several attribute selections, queries issued in PRNG order on shared graph "
+               "objects.  The rest (3-node hcount pairs, random pairs <= 8 nodes, long histories; thorough: 4-node classes) is sampled.")
 TRUSTED_BASE = [
     "Coq 8.16.1 kernel + vm_compute (no native_compute)",
     "hand-written model coq/model/C07_Model.v tied to graph_matcher.py / subgraph_matcher.py (SubgraphMatch) / graph_morphism.py by the per-run correspondence",
     "harness encoder harness/props/C07.py (attribute interning; absent attribute = None; hcount numeric)",
     "networkx VF2 (is_isomorphic, subgraph_is_isomorphic, subgraph_is_monomorphic, subgraph_isomorphisms_iter) decides / enumerates "
-    "exactly the label-preserving (induced) monomorphisms — oracle contract, monitored on every case by comparison with lib/Mono.v",
+    "exactly the label-preserving (induced) monomorphisms — premises vf2b_contract / enum_contract of the theorems, proved for the "
+    "verified instances has_mono / monos_g (lib/Mono.v) that the model run uses, and monitored on every case by comparing networkx's "
+    "answers with them",
     "CPython WeakKeyDictionary keyed by graph object identity (modelled as a map keyed by the graph's index in the case)",
 ]
-ASSUMPTIONS = ["simple undirected graphs without self-loops", "hcount, when present, is a non-negative int",
+ASSUMPTIONS = ["simple undirected graphs without self-loops (gwf: distinct node ids, edges join distinct nodes, one attribute dict per unordered pair)",
+               "hcount, when present, is a non-negative int",
                "attribute values are JSON scalars compared with Python ==; with the WL filter on, selected node attributes are present "
                "and mutually comparable (sorted() of neighbour labels)",
                "graphs are not mutated between queries (the cache is documented to go stale otherwise)",
-               "custom node/edge comparators are not used (default operator.eq)"]
-TESTED_NOT_PROVED = ["the mapping returned by the single-call isomorphism shortcut / under max_mappings is valid (oracle, every case)",
+               "custom node/edge comparators are not used (default operator.eq)",
+               "get_mappings non-emptiness: max_mappings != 0"]
+TESTED_NOT_PROVED = ["networkx VF2 meets vf2b_contract / enum_contract (compared with the verified enumerator on every case)",
+                     "the single mapping returned by the equal-size shortcut of get_mappings (gm.mapping after is_isomorphic) and the "
+                     "mappings returned under max_mappings are valid embeddings: proved for the model (any element of enum), tied to the "
+                     "code by the oracle on every case and by the result count only in the correspondence (VF2 enumeration order is not modelled)",
                      "mod/rule back-end (not installed)"]
-LEVEL_TEXT = ("Machine-checked proof (Coq) over an executable model of GraphMatcherEngine (with its WL-histogram cache as explicit state), "
-              "SubgraphMatch.subgraph_isomorphism and graph_morphism.{graph_isomorphism, subgraph_isomorphism}: verdict = existence of a "
-              "label-preserving bijection; pre-checks never reject an isomorphic pair; for every query history the verdict equals the "
-              "fresh verdict; embeddings are exactly the induced label-preserving embeddings; the cheap filters are neutral; the "
-              "boolean subgraph test is the Mono definition.  Model tied to the code by per-query comparison on exhaustive small "
-              "scopes, random pairs and query histories on every run.")
-LEVEL_NOTE = "Trusted: Coq kernel, the model, the harness encoder, the VF2 oracle contract (monitored). networkx is not verified."
+TECHNIQUE = "Coq 8.16 proof about an executable Gallina model + per-run correspondence (vm_compute digest vs implementation) + independent brute-force property oracle"
+DESIGN_REF = "DESIGN.md section 5 C07, section 7 rows 2-5; notes/C07.md"
+LEVEL_TEXT = ("Machine-checked proof (Coq, all inputs, Closed under the global context) over an executable model of GraphMatcherEngine "
+              "(with its WL-histogram cache as explicit state), SubgraphMatch.subgraph_isomorphism / is_subgraph and "
+              "graph_morphism.{graph_isomorphism, subgraph_isomorphism}: isomorphic = existence of a bijection preserving adjacency, the "
+              "selected attributes and hcount host >= pattern (C07_iso_verdict, C07_comparators); invariance under injective renaming of "
+              "either graph and symmetry for equal/absent hcounts; boolean subgraph test = induced / monomorphic containment; "
+              "get_mappings returns only valid pattern->host embeddings and at least one whenever the pattern is contained, any sizes; "
+              "every pre-filter (node count, edge count, WL-1 histogram containment on equal orders, node-label / edge-label existence) "
+              "is a necessary condition for containment, hence switching it changes no verdict and no result list; for every query "
+              "history each answer equals the fresh engine's answer (cache invariant).  VF2 enters as two explicit premises, proved for "
+              "the verified enumerator the model run uses.  Model tied to the code by per-query comparison on exhaustive small scopes, "
+              "random pairs and query histories on every run.")
+LEVEL_NOTE = ("Trusted: Coq kernel, the model, the harness encoder, the VF2 contracts (monitored, networkx is not verified). "
+              "Theorems assume well-formed simple graphs and unmutated graph objects.")
 
 KEYS = {"hcount": 0, "element": 1, "charge": 2, "aromatic": 3, "order": 4}
 
@@ -537,9 +553,9 @@ def gen_cases(tier, rng):
         # pairs involving a 4-node class: all equal-size pairs + a sample of the rest
         small = noh[1] + noh[2] + noh[3]
         pairs = [(a, b) for a, b in itertools.combinations_with_replacement(small, 2)]
-        pairs += [(a, b) for a, b in itertools.combinations_with_replacement(noh[4], 2)] if len(noh[4]) < 800 else \
-                 [(rng.choice(noh[4]), rng.choice(noh[4])) for _ in range(150000)]
-        pairs += [(rng.choice(small), rng.choice(noh[4])) for _ in range(40000)]
+        pairs += [(a, b) for a, b in itertools.combinations_with_replacement(noh[4], 2)] if len(noh[4]) < 200 else \
+                 [(rng.choice(noh[4]), rng.choice(noh[4])) for _ in range(25000)]
+        pairs += [(rng.choice(small), rng.choice(noh[4])) for _ in range(8000)]
     else:
         pairs = list(itertools.combinations_with_replacement(reps, 2))
     for a, b in pairs:
@@ -550,7 +566,7 @@ def gen_cases(tier, rng):
     # ---- hcount alphabet: ordered pairs
     hsmall = wh[1] + wh[2]
     hp = [(a, b) for a in hsmall for b in hsmall]
-    n3 = 500 if tier == "quick" else 40000
+    n3 = 500 if tier == "quick" else 10000
     hp += [(rng.choice(wh[3]), rng.choice(wh[3] if rng.random() < 0.7 else hsmall)) for _ in range(n3)]
     for a, b in hp:
         gs = [_present(a, rng), _present(b, rng)]
@@ -560,7 +576,7 @@ def gen_cases(tier, rng):
         prs = [(0, 1), (1, 0)] + ([(0, 2), (2, 0)] if len(gs) == 3 else [])
         cases.append(dict(kind="hcount-pairs", graphs=gs, engines=es, queries=_battery(rng, prs, len(es), nosubs=((2, 0),))))
     # ---- random pairs <= 8 nodes: relabelled copies, one-edit neighbours, planted sub-patterns
-    for _ in range(600 if tier == "quick" else 20000):
+    for _ in range(600 if tier == "quick" else 8000):
         n = rng.randint(1, 8) if rng.random() < 0.5 else rng.randint(1, 6)
         a = _rand_graph(rng, n, hc=rng.random() < 0.6)
         z = rng.random()
@@ -591,10 +607,10 @@ def gen_cases(tier, rng):
     for seq in itertools.product(opts_all, repeat=2):
         cases.append(dict(kind="seq-exh2", graphs=trio, engines=e2, queries=[list(q) for q in seq]))
     if tier == "thorough":
-        for seq in rng.sample(list(itertools.product(opts_all, repeat=3)), 20000):
+        for seq in rng.sample(list(itertools.product(opts_all, repeat=3)), 8000):
             cases.append(dict(kind="seq-samp3", graphs=trio, engines=e2, queries=[list(q) for q in seq]))
     # ---- random long histories (up to 30 queries, 3-4 graph objects, 3-4 engines)
-    for _ in range(300 if tier == "quick" else 6000):
+    for _ in range(300 if tier == "quick" else 2500):
         base = _rand_graph(rng, rng.randint(2, 5), hc=rng.random() < 0.5)
         gs = [base, _present(base, rng, extra=9), _edit(_present(base, rng, extra=9), rng)]
         if rng.random() < 0.5:
